@@ -1648,6 +1648,11 @@ class Dataset(
         if keep_fields is None:
             keep_fields = []
 
+        # A single field name can be given as str. It must not get translated
+        # character by character into original field names.
+        if isinstance(dtc_except_fields, str):
+            dtc_except_fields = [dtc_except_fields]
+
         datafields = {**self._cfg['datafields'], **self._datafields}
 
         # Load the experimental data if there is any.
